@@ -68,12 +68,17 @@ func checkCtxPrimitives(r *core.Run, p *core.Program, a *analysis, rule string, 
 		}
 		got, f := ctxSummary(p, a, name)
 		if f == nil {
+			if _, expandable := ctxHelperParams[name]; expandable {
+				// the helper was inlined into its callers: their summaries are compared with the reference expanded the same way
+				r.Pass(rule, "rules.Context."+name, 0, "helper not present: inlined into its callers, which are judged against the expanded reference")
+				continue
+			}
 			r.Undecided(rule, "rules.Context."+name)
 			continue
 		}
 		match := false
 		for _, w := range want {
-			if w == got {
+			if sameEffect(got, []string{w}) {
 				match = true
 			}
 		}
@@ -108,7 +113,7 @@ func checkTableRows(r *core.Run, p *core.Program, a *analysis, rule string, rows
 			got := table[rt][ev]
 			ok := false
 			for _, w := range want {
-				if w == got {
+				if sameEffect(got, []string{w}) {
 					ok = true
 				}
 			}
